@@ -41,6 +41,10 @@ func Scripted(prop string) []*Scenario {
 				Ops: []OpSpec{ins("f", 1, 1, 2, 3), ins("f", 1, 4), {Sess: "f", Kind: "sethead", N: 1}, ins("f", 1, 4)}},
 			&Scenario{Name: "headers-first-then-blocks", Nodes: nodes, Ops: []OpSpec{hdr("m", 1, 1, 2, 3, 7, 8), ins("m", 1, 1, 2), ins("m", 1, 3), {Sess: "m", Kind: "sethead", N: 2},
 				ins("m", 1, 3, 7), hdr("m", 1, 8), {Sess: "m", Kind: "sethead", N: 4}, {Sess: "m", Kind: "reopen"}, ins("m", 1, 8), {Sess: "m", Kind: "sethead", N: 1}}},
+			// blocks 1-2-3-4-5, then 6 on 2 (shorter, heavier: stale entries 4,5), SetHead 0 (removes 6,2,1 but
+			// keeps 3,4,5 and their TDs), then the header of 7 (child of 5) is accepted on the orphaned branch
+			&Scenario{Name: "headers-on-orphaned-side-header", Nodes: []NodeSpec{{}, v(0, 100), v(1, 100), v(2, 100), v(3, 100), v(4, 100), v(2, 500), v(5, 100)},
+				Ops: []OpSpec{ins("m", 1, 1, 2, 3, 4, 5), ins("m", 1, 6), {Sess: "m", Kind: "sethead", N: 0}, hdr("m", 1, 7)}},
 			prunedSideScenario(),
 			&Scenario{Name: "mixed", Nodes: nodes, Ops: []OpSpec{ins("m", 1, 1, 2), hdr("m", 1, 3, 7, 8), ins("m", 2, 3), {Sess: "m", Kind: "sethead", N: 3}, hdr("m", 2, 5, 6), ins("m", 3, 7), {Sess: "m", Kind: "reopen"}, ins("m", 3, 5, 6)}},
 		)
